@@ -23,6 +23,8 @@ extern carquet_status_t carquet_read_next_page(
     int64_t* values_read,
     carquet_error_t* error);
 
+extern void carquet_column_reader_release_retired(carquet_column_reader_t* reader);
+
 /* ============================================================================
  * Batch Reading
  * ============================================================================
@@ -55,6 +57,9 @@ int64_t carquet_column_read_batch(
     if (reader->values_remaining <= 0) {
         return 0;
     }
+
+    /* Byte-array values of the previous call are no longer guaranteed */
+    carquet_column_reader_release_retired(reader);
 
     carquet_error_t error = CARQUET_ERROR_INIT;
     int64_t total_read = 0;
